@@ -1,6 +1,9 @@
 SPECIFICATION Spec
 CONSTANTS
-  Shapes <- T_Shapes
+  Shapes <- One_Shapes
   Full = FALSE
-  Names <- Names1
+  Names <- One_Names
+INVARIANT NamesDistinct
+INVARIANT InversePairs
+INVARIANT RealInverse
 CHECK_DEADLOCK FALSE
